@@ -29,10 +29,14 @@ DeepValues ==
 ReplayValues ==
   { <<97, 98>>, <<97, 44, 98>>, <<34, 97, 34, 98>>, <<39>>, <<13, 10, 97>>, <<97, 10>>, <<32, 97, 9>>, <<233, 97>> }
 
+(* removal histories: two plain classes are enough, the point is which cells are left *)
+RemovalValues == { <<97>>, <<98, 44, 34>> }
+
 NoFree == {}
 FreeChars == {97, 44, 34, 39, 13, 10}
 
 (* replay emission: only the build phase is explored (histories of at most 2 build actions, *)
 (* overwriting a cell included), every Begin prints its history                            *)
 BuildOnly == pc = "build" /\ Len(hist) <= 2
+BuildOnly3 == pc = "build" /\ Len(hist) <= 3
 ====
